@@ -361,14 +361,24 @@ def cluster_for(module_name: str, src_dir: str | None = None):
     return ent
 
 
-def cluster_features(cl) -> dict:
-    """What the cluster contains (for the evidence: classes, methods, fields, enums, ...)."""
-    out = {"constructors": 0, "methods": 0, "functions": 0, "enums": 0, "fields": 0}
+def cluster_features(cl, module_name: str) -> dict:
+    """What the cluster offers for the module under test (classes, methods, fields, enums, ...)."""
+    out = {"constructors": 0, "methods": 0, "functions": 0, "enums": 0, "fields": 0,
+           "callable_params": 0, "collection_params": 0}
     seen = set()
-    for a in list(cl.accessible_objects_under_test) + [g for gs in cl.generators.values() for g in gs]:
+    short = module_name.rsplit(".", 1)[-1]
+    pool = list(cl.accessible_objects_under_test) + [g for gs in cl.generators.values() for g in gs]
+    for a in pool:
         if id(a) in seen:
             continue
         seen.add(id(a))
+        owner = getattr(a, "owner", None)
+        if isinstance(a, gao.GenericField):
+            if owner is not None and owner.module.rsplit(".", 1)[-1] == short:
+                out["fields"] += 1
+            continue
+        if a not in cl.accessible_objects_under_test:
+            continue
         if isinstance(a, gao.GenericConstructor):
             out["constructors"] += 1
         elif isinstance(a, gao.GenericMethod):
@@ -377,8 +387,14 @@ def cluster_features(cl) -> dict:
             out["functions"] += 1
         elif isinstance(a, gao.GenericEnum):
             out["enums"] += 1
-        elif isinstance(a, gao.GenericField):
-            out["fields"] += 1
+        sig = getattr(a, "inferred_signature", None)
+        if sig is not None:
+            for pt in sig.original_parameters.values():
+                txt = str(pt)
+                if "Callable" in txt or "function" in txt:
+                    out["callable_params"] += 1
+                if any(k in txt for k in ("list", "dict", "set", "tuple", "Sequence", "Iterable", "Mapping")):
+                    out["collection_params"] += 1
     return out
 
 
